@@ -35,13 +35,17 @@ type pktSink struct {
 }
 
 func (s *pktSink) HandleRead(ctx netty.InboundContext, message netty.Message) {
-	r, ok := message.(io.Reader)
-	if !ok {
-		panic(fmt.Errorf("c08 packet sink: %T is not a reader", message))
-	}
-	data, err := io.ReadAll(r)
-	if err != nil {
-		panic(err) // a frame whose reader fails before its end is not a delivered frame
+	var data []byte
+	switch m := message.(type) {
+	case []byte:
+		data = m // a decoder may hand out the frame bytes directly
+	case io.Reader:
+		var err error
+		if data, err = io.ReadAll(m); err != nil {
+			panic(err) // a frame whose reader fails before its end is not a delivered frame
+		}
+	default:
+		panic(fmt.Errorf("c08 packet sink: %T is neither bytes nor a reader", message))
 	}
 	s.mu.Lock()
 	s.msgs = append(s.msgs, append([]byte{}, data...))
@@ -63,7 +67,7 @@ type pkt struct {
 
 func packetTrial(c *core.Ctx, id string, idx int) {
 	rng := c.Rand("packet", idx)
-	inner := []string{"none", "length-field", "length-field-keep-header", "delimiter"}[idx%4]
+	inner := []string{"none", "length-field", "length-field-keep-header", "delimiter", "varint"}[idx%5]
 	const max = 48
 	handlers := []netty.Handler{frame.PacketCodec([]int{0, 8, 64, 1024}[rng.Intn(4)])}
 	switch inner {
@@ -73,6 +77,8 @@ func packetTrial(c *core.Ctx, id string, idx int) {
 		handlers = append(handlers, frame.LengthFieldCodec(binary.BigEndian, max, 0, 2, 0, 0))
 	case "delimiter":
 		handlers = append(handlers, frame.DelimiterCodec(max, "\n", true))
+	case "varint":
+		handlers = append(handlers, frame.VarintLengthFieldCodec(max))
 	}
 	sink := &pktSink{}
 	handlers = append(handlers, sink)
@@ -93,9 +99,9 @@ func packetTrial(c *core.Ctx, id string, idx int) {
 		switch x := rng.Intn(10); {
 		case x < 3:
 			p.kind = "cut"
-		case x < 5 && (inner == "length-field" || inner == "length-field-keep-header"):
+		case x < 5 && (inner == "length-field" || inner == "length-field-keep-header" || inner == "varint"):
 			p.kind = "rejected"
-		case x < 6 && (inner == "length-field" || inner == "length-field-keep-header"):
+		case x < 7 && (inner == "length-field" || inner == "length-field-keep-header" || inner == "varint"):
 			p.kind = "short"
 		}
 		if i == k-1 {
@@ -106,6 +112,15 @@ func packetTrial(c *core.Ctx, id string, idx int) {
 			p.wire = p.payload
 		case "delimiter":
 			p.wire = append(append([]byte{}, p.payload...), '\n')
+		case "varint":
+			n := len(p.payload)
+			switch p.kind {
+			case "rejected":
+				n = max + 1 + rng.Intn(1000)
+			case "short":
+				n = len(p.payload) + 1 + rng.Intn(5)
+			}
+			p.wire = append(binary.AppendUvarint(nil, uint64(n)), p.payload...)
 		default:
 			n := len(p.payload)
 			switch p.kind {
@@ -211,3 +226,81 @@ func quoteAll(bs [][]byte) string {
 }
 
 var _ = rand.Int
+
+// varlenTrial: VariableLengthCodec(max) delivers what one transport read returned, at most max bytes. For every stream
+// and fragmentation: no delivered message is longer than max, the delivered messages concatenate to a prefix of the
+// stream (all of it when the stream ended cleanly), and the end of the stream is not delivered as a message.
+func varlenTrial(c *core.Ctx, id string, idx int) {
+	rng := c.Rand("varlen", idx)
+	max := []int{1, 2, 7, 100, 1000, 1024, 1025, 3000}[idx%8]
+	stream := make([]byte, rng.Intn(4*max+50))
+	for i := range stream {
+		stream[i] = byte(rng.Intn(256))
+	}
+	tr := mon.NewRecTransport()
+	// the peer's bytes become available in bursts of any size (also far more than max at once)
+	for w := stream; len(w) > 0; {
+		n := 1 + rng.Intn(len(w))
+		if rng.Intn(3) == 0 && n > max {
+			n = 1 + rng.Intn(max)
+		}
+		tr.Feed(mon.ReadStep{Data: w[:n]})
+		w = w[n:]
+	}
+	term := []error{io.EOF, errors.New("c08 connection reset")}[rng.Intn(2)]
+	tr.SetTerminal(term)
+	sink := &bytesSink{}
+	closer := &closeOnExc{}
+	rig := mon.NewRig(mon.RigOpts{Mode: mon.Sync, NoPark: true, Tr: tr, Handlers: []netty.Handler{frame.VariableLengthCodec(max), sink, closer}})
+	ok := rig.Ex.WaitOutstanding(0, 10*time.Second)
+	rig.Dispose()
+	if !ok {
+		c.Inconclusive(id, "watchdog: variable-length trial did not end")
+		return
+	}
+	c.Count("variable_length_trials", 1)
+	sink.mu.Lock()
+	got := sink.msgs
+	sink.mu.Unlock()
+	c.Sig("varlen", max, len(stream) > max, len(got) > 3)
+	var all []byte
+	where := fmt.Sprintf("VariableLengthCodec(%d) on a %d-byte stream", max, len(stream))
+	for i, m := range got {
+		c.Count("variable_length_messages_checked", 1)
+		if len(m) > max {
+			c.Violation("C08:variable-length-message-exceeds-maximum", id, fmt.Sprintf("%s: message #%d has %d bytes", where, i, len(m)), map[string]interface{}{"max": max, "stream_len": len(stream)})
+			return
+		}
+		if len(m) == 0 {
+			c.Violation("C08:variable-length-empty-message", id, fmt.Sprintf("%s: message #%d is empty although no read returned zero bytes (end of stream delivered as a message)", where, i), map[string]interface{}{"max": max, "stream_len": len(stream)})
+			return
+		}
+		all = append(all, m...)
+	}
+	if len(all) > len(stream) || string(all) != string(stream[:len(all)]) {
+		c.Violation("C08:variable-length-messages-differ-from-stream", id, fmt.Sprintf("%s: the %d delivered messages (%d bytes) are not a prefix of the stream", where, len(got), len(all)), map[string]interface{}{"max": max, "stream_len": len(stream)})
+	}
+}
+
+// bytesSink records delivered byte messages (copied: the codec reuses its buffer); it handles no exceptions.
+type bytesSink struct {
+	mu   sync.Mutex
+	msgs [][]byte
+}
+
+func (s *bytesSink) HandleRead(ctx netty.InboundContext, message netty.Message) {
+	b, ok := message.([]byte)
+	if !ok {
+		panic(fmt.Errorf("c08 bytes sink: %T", message))
+	}
+	s.mu.Lock()
+	s.msgs = append(s.msgs, append([]byte{}, b...))
+	s.mu.Unlock()
+}
+
+// closeOnExc closes the channel on an exception like the built-in tail handler (without printing).
+type closeOnExc struct{}
+
+func (closeOnExc) HandleException(ctx netty.ExceptionContext, ex netty.Exception) {
+	ctx.Channel().Close(ex)
+}
